@@ -24,6 +24,10 @@ class Src:
             yield x
 
 
+def _ident(x):
+    return x
+
+
 def run_impl(ld, cfg, lens, as_float=False):
     """returns list of (ids, pulled at that yield) or ('raised', class name)"""
     bs, rate, mts, exp, maxbuf, drop, sortmode = cfg
@@ -42,7 +46,13 @@ def run_impl(ld, cfg, lens, as_float=False):
         expiration=exp, max_buffered_examples=maxbuf, drop_incomplete=drop,
         sort_key=None if sortmode == 0 else 'len', reverse_sort=sortmode == 2)
     out = []
+    # what is iterated is the object itself, a copy of it, a copy of a pipeline built on it, or the profiler's internal copy
+    # (deterministic choice per configuration): copies keep every parameter
+    how = (len(lens) + bs + (exp or 0) + (maxbuf or 0)) % 4
     try:
+        if how == 1: ds = ds.copy()
+        elif how == 2: ds = ds.map(_ident).copy(freeze=True)
+        elif how == 3: ds = ld.core.ProfilingDataset(ds)
         for batch in ds:
             out.append(([e['id'] for e in batch], src.pulled))
     except Exception as e:
